@@ -1,6 +1,7 @@
 """C19 - settings validation is pure; every setting is propagated and domain-checked."""
 import ast
 
+from .common import borrowed
 from ..index import AnalysisError, attr_chain, norm, own_nodes
 from ..query import calls_in, call_name
 
@@ -698,7 +699,7 @@ def rule_ranges(ctx):
     specification says the value is outside the domain."""
     import itertools
     from ..condeval import outcomes
-    from .common import dead_edge_labels
+    from .common import borrowed, dead_edge_labels
     R = "C19.RANGES"
     O = "other."
     V = [(2, 0), (3, 0), (3, 1), (3, 3), (3, 4), (3, 5)]
@@ -781,7 +782,53 @@ def rule_ranges(ctx):
                    sample={"fields": [k for k in keys], "assignments": len(list(itertools.product(*[dom[k] for k in keys])))})
 
 
+def rule_group_tables(ctx):
+    """GROUP-TABLES: the two tables that say which groups TLS 1.3 allows agree: validate() accepts a
+    TLS 1.3-only configuration iff its groups are in TLS13_PERMITTED_GROUPS, the server refuses a
+    TLS 1.3-only hello that lists a group of TLS_1_3_FORBIDDEN_GROUPS.  No permitted group may be
+    forbidden (such settings validate and then never connect), and the forbidden set is the
+    obsolete_RESERVED ranges of RFC 8446 B.3.1.4."""
+    from ..condeval import ev, Unknown
+    from ..consteval import ClassEval
+    R = "C19.GROUP-TABLES"
+    cmod = ctx.index.module("constants")
+    forb = None
+    for st in cmod.tree.body:
+        if isinstance(st, ast.Assign) and any(isinstance(t, ast.Name) and t.id == "TLS_1_3_FORBIDDEN_GROUPS" for t in st.targets):
+            try:
+                forb = frozenset(ev(st.value, {}))
+            except (Unknown, TypeError):
+                raise AnalysisError("C19.GROUP-TABLES: TLS_1_3_FORBIDDEN_GROUPS is not a constant expression the rule can evaluate")
+            floc = "tlslite/constants.py:%d" % st.lineno
+    hmod = ctx.index.module("handshakesettings")
+    perm = None
+    for st in hmod.tree.body:
+        if isinstance(st, ast.Assign) and any(isinstance(t, ast.Name) and t.id == "TLS13_PERMITTED_GROUPS" for t in st.targets):
+            perm = ev(st.value, {})
+    if forb is None or not perm:
+        raise AnalysisError("C19.GROUP-TABLES: group tables not found")
+    gn = {}
+    for st in ctx.index.cls("constants:GroupName").node.body:
+        if isinstance(st, ast.Assign) and isinstance(st.value, ast.Constant) and isinstance(st.value.value, int):
+            for t in st.targets:
+                if isinstance(t, ast.Name):
+                    gn[t.id] = st.value.value
+    rfc = frozenset(range(1, 0x17)) | frozenset(range(0x1A, 0x1D)) | frozenset((0xff01, 0xff02))
+    ctx.check(R, forb == rfc, "constants:TLS_1_3_FORBIDDEN_GROUPS", "forbidden set = RFC 8446 obsolete_RESERVED ranges",
+              "TLS_1_3_FORBIDDEN_GROUPS differs from RFC 8446 B.3.1.4 (1..0x16, 0x1A..0x1C, 0xFF01, 0xFF02): %s"
+              % sorted(forb ^ rfc)[:6], floc)
+    for name in perm:
+        if name not in gn:
+            ctx.fail(R, "handshakesettings:TLS13_PERMITTED_GROUPS", "group %s known" % name,
+                     "TLS13_PERMITTED_GROUPS names %s, which GroupName does not define" % name, "tlslite/handshakesettings.py")
+            continue
+        ctx.check(R, gn[name] not in forb, "constants:TLS_1_3_FORBIDDEN_GROUPS", "%s permitted and not forbidden" % name,
+                  "group %s (%d) is in TLS13_PERMITTED_GROUPS and in TLS_1_3_FORBIDDEN_GROUPS: settings offering it "
+                  "for TLS 1.3 only validate, and every server then refuses the ClientHello" % (name, gn[name]), floc)
+
+
 RULES = [
+    ("C19.GROUP-TABLES", "quick", rule_group_tables),
     ("C19.RANGES", "quick", rule_ranges),
     ("C19.SELECT", "quick", rule_select),
     ("C19.OFFER", "quick", rule_offer),
@@ -789,4 +836,5 @@ RULES = [
     ("C19.FIELDS", "quick", rule_fields),
     ("C19.DOMAIN", "quick", rule_domain),
     ("C19.SUPPORTED", "quick", rule_supported),
+    ("C19.RSL", "quick", borrowed("c01", "rule_rsl", "C01.RSL", "C19.RSL")),
 ]
